@@ -350,3 +350,21 @@ Example C05_nested_equal_ids_nonvacuous :
        [NGroup (G 0 false None None [FD 1 7 []] [NPath 0 true PColor PNone]);
         NImage 0 (Some (G 0 false None None [] [NGroup (G 0 false None None [FD 2 7 []] [NPath 0 true PColor PNone])]))]))) = [1; 2].
 Proof. reflexivity. Qed.
+
+(* ---- final pass: the general statement behind the table - ANY straight-line program over node variables that only MOVES the id
+   (new / assign at most once / clear / mem::swap / push by move: no `.clone()` of an id or of a node, no copying push, no second
+   representation), started with no variable holding the source id, emits it at most once.  Induction over the program, any length. *)
+Theorem C05_copy_free_programs_emit_once : forall p,
+  copy_free p = true -> (src_count (IdPrograms.run p (fun _ => KEmpty)) <= 1)%nat.
+Proof. exact copy_free_at_most_once. Qed.
+Print Assumptions C05_copy_free_programs_emit_once.
+
+(* the image programs of the generated table are such programs (and do not depend on the starting environment); the table also holds
+   the text site now: the Text node carries the element id, its flattened group holds a copy as second representation of the SAME node *)
+Example C05_copy_free_instances :
+  forallb (fun np => implb (prefix "image::" (fst np))
+                       (copy_free (snd np) &&
+                        Nat.eqb (src_count (IdPrograms.run (snd np) (fun _ => KEmpty))) (src_count (emitted (snd np))))) id_programs = true /\
+  existsb (fun np => prefix "image::" (fst np)) id_programs = true /\
+  existsb (fun np => String.eqb (fst np) "text::convert") id_programs = true.
+Proof. destruct table_instances as [A B]. repeat split; auto. Qed.
